@@ -56,6 +56,14 @@ func (glyph *SimpleGlyph) Decode() (*GlyphInfo, error) {
 		endPtsOfContours[i] = uint16(buf[2*i])<<8 | uint16(buf[2*i+1])
 	}
 	buf = buf[2*numContours:]
+	if numContours == 0 {
+		// a glyph without contours has no points
+		res := &GlyphInfo{}
+		if n := int(buf[0])<<8 | int(buf[1]); len(buf) >= 2+n {
+			res.Instructions = buf[2 : 2+n]
+		}
+		return res, nil
+	}
 	numPoints := int(endPtsOfContours[numContours-1]) + 1
 
 	instructionLength := int(buf[0])<<8 | int(buf[1])
@@ -149,6 +157,10 @@ func (glyph *SimpleGlyph) Decode() (*GlyphInfo, error) {
 	start := 0
 	for i := 0; i < numContours; i++ {
 		end := int(endPtsOfContours[i]) + 1
+		if end < start || end > numPoints {
+			// endPtsOfContours must be non-decreasing
+			return nil, errInvalidGlyphData
+		}
 		pp := make([]Point, end-start)
 		for j := start; j < end; j++ {
 			pp[j-start] = Point{xx[j], yy[j], ff[j]&flagOnCurve != 0}
